@@ -20,6 +20,13 @@ CHECKS = {
    note="Trusted: TLC, Totp.tla, stdlib hmac as HOTP reference for the code table (HMAC correctness is C13's subject). "
         "Bounds: periods 1..5 model units (x1/10/30 s), windows 0..7, histories <= 6 attempts in the model; 14 calls per recorded trace.",
    technique="TLA+ spec (Totp.tla MatchResult) model-checked with TLC + spec-to-implementation replay + trace validation"),
+ "C13": dict(cat=MC, design="DESIGN.md §3 C13",
+   text="Totp.tla defines RFC 4226 dynamic truncation, decimal rendering, time->counter division and validity interval (limb arithmetic "
+        "to 2^45) and key-text normalisation; TLC checks the truncation invariants for every offset/digest size/digit count/boundary "
+        "value; boundary digests chosen by TLC are injected into real TOTP objects and recorded generate()/key-decoding events "
+        "(keys 1..64 bytes, 3 algorithms, digits 6..10, periods 1..3600, times to 2^40 in int/float/datetime forms) are re-computed by the spec.",
+   note="Trusted: TLC, Totp.tla, stdlib hmac/hashlib for the HMAC digest fed to the spec (passlib's own HMAC is C11's subject).",
+   technique="TLA+ spec (Totp.tla Generate) model-checked with TLC + trace validation of recorded generate() calls + digest injection replay"),
 }
 PENDING = {}
 props = [json.loads(l) for l in open(os.path.join(HERE, "properties.jsonl"))]
